@@ -212,6 +212,14 @@ func (c *Ctx) idxConst(n int64) string {
 }
 
 func (c *Ctx) freshName(hint string) string {
+	if c.stableNames {
+		// parameters keep suffix-free names so that known-finding regions and replay
+		// templates can refer to them across runs
+		n := quoteSym(hint)
+		if !c.declared[n] {
+			return n
+		}
+	}
 	c.fresh++
 	return quoteSym(fmt.Sprintf("%s!%d", hint, c.fresh))
 }
